@@ -279,6 +279,7 @@ Proof.
   destruct (g_ok g); cbn; [|auto].
   destruct (g_items g) as [|it [|it2 rest]]; cbn; auto.
   destruct (it_ok it); cbn; [|auto].
+  destruct (it_ser it); cbn; [|auto].
   destruct (IH (write (root ++ g_path g) [(SNone, it_val it)] d)) as [IH1 IH2].
   destruct (commit_C gs) as [l2 o2]; cbn in *. split; [|exact IH2].
   rewrite IH1. apply awrites_ext. unfold view at 1.
@@ -293,6 +294,7 @@ Proof.
   destruct (g_ok g); cbn; [|reflexivity].
   destruct (g_items g) as [|it [|it2 rest]]; cbn; try reflexivity.
   destruct (it_ok it); cbn; [|reflexivity].
+  destruct (it_ser it); cbn; [|reflexivity].
   rewrite IH. now apply get_write_sep.
 Qed.
 
@@ -328,7 +330,7 @@ Proof.
   - induction W as [|g gs _ W IH]; intros d; cbn; [auto|].
     destruct (g_ok g); cbn; [|auto].
     destruct (g_items g) as [|it [|it2 rest]]; cbn; auto.
-    destruct (it_ok it); cbn; [|auto]. rewrite IH. destruct (commit_C gs); reflexivity.
+    destruct (it_ok it); cbn; [|auto]. destruct (it_ser it); cbn; [|auto]. rewrite IH. destruct (commit_C gs); reflexivity.
 Qed.
 
 Definition step_wf (s : mode * path * list group) : Prop :=
